@@ -349,6 +349,21 @@ func (p *queryPlan) processClause(ctx context.Context, cls *semantic.GraphClause
 		return b, nil
 	}
 
+	if len(cls.Bindings()) == 0 {
+		// The clause binds nothing (constants and bounded predicates only): it
+		// only has to hold, and has nothing to add to the rows resolved so far.
+		if cls.Optional {
+			return false, nil
+		}
+		probe := *cls
+		probe.SAlias = "?__exists"
+		tbl, err := simpleFetch(ctx, p.grfs, &probe, lo, 0, p.chanSize, p.tracer)
+		if err != nil {
+			return true, err
+		}
+		return tbl.NumRows() == 0, nil
+	}
+
 	exist, total := 0, 0
 	var existing []string
 	for _, b := range cls.Bindings() {
